@@ -418,7 +418,7 @@ pub fn gen_instance(rng: &mut Rng, o: &GenOpts) -> (Value, Value) {
                 "location": loc_ids[rng.usize(n_locs)],
                 "start": fmt_time_variant(start, time_variant),
                 "end": fmt_time_variant(start + dur, time_variant),
-                "trackCount": *rng.pick(&[1u64, 2, 2, 3]),
+                "trackCount": *rng.pick(&[1u64, 2, 2, 3, 0, 1, 2, 2, 3, 1, 2, 3]),
             }));
             continue;
         }
@@ -434,7 +434,8 @@ pub fn gen_instance(rng: &mut Rng, o: &GenOpts) -> (Value, Value) {
             "location": loc_ids[rng.usize(n_locs)],
             "start": fmt_time_variant(start, time_variant),
             "end": fmt_time_variant(start + dur, time_variant),
-            "trackCount": *rng.pick(&[1u64, 1, 2, 2, 3]),
+            // a slot without tracks ("closed") is valid input: nobody may ever be assigned to it
+            "trackCount": *rng.pick(&[1u64, 1, 2, 2, 3, 0, 1, 1, 2, 2, 3, 1]),
         }));
     }
 
